@@ -1,9 +1,118 @@
+import ScenicModel.Gen.Visibility
+import ScenicModel.Model.Visibility
 import Driver.Util
-/-! line protocol for the C17 model (stub: replaced when the property's model is built) -/
+/-!
+line protocol for the visibility model (C17); the configuration is the one regenerated from /repo.
+
+A viewer is `<kind> D px py pz qw qx qy qz ox oy oz c0 s0 c1 s1` (kind `P`oint / `O`rientedPoint / o`B`ject /
+`R`aw = the arguments of `visibility.canSee` themselves; position, orientation quaternion, camera offset,
+`(cos, sin)` of half of `viewAngles[0]` and of `viewAngles[1]`); a box is `cx cy cz qw qx qy qz hx hy hz`.
+
+* `pt  <viewer> tx ty tz n <box>*n`   -> `1`/`0`   the model of `X.canSee(<vector>, occludingObjects)`
+* `vol <viewer> tx ty tz`             -> `1`/`0`   membership in the view volume (specification side)
+* `out <viewer> <box>`                -> `1`/`0`   certificate "box wholly outside the view volume"
+* `in  <viewer> <box> ux uy`          -> `1`/`0`   certificate "box wholly inside the view volume"
+* `geo <viewer> <box>`                -> `distSq farSq camInside` of the box w.r.t. the camera
+* `cam <viewer>`                      -> camera position
+-/
 namespace Driver.C17
-open Driver
+open Scenic.Vis Driver
+
+def CFG := Scenic.Gen.visCfg
+def WRAP := Scenic.Gen.visWrapCfg
+
+def mkV : List Rat → Option (V3 × List Rat)
+  | a :: b :: c :: rest => some (⟨a, b, c⟩, rest)
+  | _ => none
+
+def mkQ : List Rat → Option (Mat3 × List Rat)
+  | w :: x :: y :: z :: rest =>
+    if w * w + x * x + y * y + z * z = 0 then none else some (Mat3.ofQuat w x y z, rest)
+  | _ => none
+
+def mkHalf : List Rat → Option (Half × List Rat)
+  | c :: s :: rest => some (⟨c, s⟩, rest)
+  | _ => none
+
+def mkViewerFrom (kind : String) (xs : List Rat) : Option (Viewer × List Rat) := do
+  let (D, xs) ← match xs with
+    | d :: r => some (d, r)
+    | [] => none
+  let (p, xs) ← mkV xs
+  let (R, xs) ← mkQ xs
+  let (off, xs) ← mkV xs
+  let (a0, xs) ← mkHalf xs
+  let (a1, xs) ← mkHalf xs
+  match kind with
+  | "P" => some (mkViewer WRAP .point p R off D a0 a1, xs)
+  | "O" => some (mkViewer WRAP .oriented p R off D a0 a1, xs)
+  | "B" => some (mkViewer WRAP .object p R off D a0 a1, xs)
+  | "R" => some (⟨p, R, D, a0, a1⟩, xs)
+  | _ => none
+
+def mkBox (xs : List Rat) : Option (Box × List Rat) := do
+  let (c, xs) ← mkV xs
+  let (M, xs) ← mkQ xs
+  let (h, xs) ← mkV xs
+  some (⟨c, M, h⟩, xs)
+
+def mkBoxes : Nat → List Rat → Option (List Box)
+  | 0, [] => some []
+  | 0, _ => none
+  | n + 1, xs => do
+    let (b, xs) ← mkBox xs
+    let bs ← mkBoxes n xs
+    some (b :: bs)
+
+def bit (b : Bool) : String := if b then "1" else "0"
 
 def handle : List String → String
+  | "pt" :: kind :: rest => match rest.mapM parseRat with
+    | some xs => match mkViewerFrom kind xs with
+      | some (vw, xs) => match mkV xs with
+        | some (t, n :: xs) =>
+          if n.den = 1 ∧ 0 ≤ n.num then
+            match mkBoxes n.num.toNat xs with
+            | some bs => bit (pointVisible CFG vw t bs)
+            | none => "bad-op"
+          else "bad-op"
+        | _ => "bad-op"
+      | none => "bad-op"
+    | none => "bad-op"
+  | "vol" :: kind :: rest => match rest.mapM parseRat with
+    | some xs => match mkViewerFrom kind xs with
+      | some (vw, xs) => match mkV xs with
+        | some (t, []) => bit (decide (InViewVolume vw t))
+        | _ => "bad-op"
+      | none => "bad-op"
+    | none => "bad-op"
+  | "out" :: kind :: rest => match rest.mapM parseRat with
+    | some xs => match mkViewerFrom kind xs with
+      | some (vw, xs) => match mkBox xs with
+        | some (b, []) => bit (outsideCert vw b)
+        | _ => "bad-op"
+      | none => "bad-op"
+    | none => "bad-op"
+  | "in" :: kind :: rest => match rest.mapM parseRat with
+    | some xs => match mkViewerFrom kind xs with
+      | some (vw, xs) => match mkBox xs with
+        | some (b, [ux, uy]) => bit (insideCert vw b ⟨ux, uy, 0⟩)
+        | _ => "bad-op"
+      | none => "bad-op"
+    | none => "bad-op"
+  | "geo" :: kind :: rest => match rest.mapM parseRat with
+    | some xs => match mkViewerFrom kind xs with
+      | some (vw, xs) => match mkBox xs with
+        | some (b, []) =>
+          s!"{showRat (b.distSq vw.cam)} {showRat (b.farSq vw.cam)} {bit (decide (b.Contains vw.cam))}"
+        | _ => "bad-op"
+      | none => "bad-op"
+    | none => "bad-op"
+  | "cam" :: kind :: rest => match rest.mapM parseRat with
+    | some xs => match mkViewerFrom kind xs with
+      | some (vw, []) => s!"{showRat vw.cam.x} {showRat vw.cam.y} {showRat vw.cam.z}"
+      | _ => "bad-op"
+    | none => "bad-op"
   | _ => "bad-op"
 
 end Driver.C17
